@@ -1,198 +1,654 @@
 """C13 — broken connections are retried safely and never burn a credential."""
-import itertools, os, subprocess, time
+import itertools, json, os, re, subprocess, time
 import vlib, rig, credcorr
 from proxy import FaultProxy
+from props import c13_replay
 
 MANIFEST = dict(
-    level=("proof", "Coq theorems over RetryModel (libmunge's m_msg_client_xfer loop against CredModel.dec_process with "
-           "per-attempt faults: request cut, reply lost after a successful send, reply send failed with roll-back): up to "
-           "four faulty attempts of any kind in any order followed by a clean one return exactly the fault-free result and "
-           "leave exactly one replay record; an unsent reply without retry leaves the cache as before; five faults give a "
-           "socket error, never a partial result; retry counter bounds; encode is retry-independent. Tied to the code by "
-           "the real libmunge (built from /repo) talking to the real daemon through a fault-injecting proxy that cuts the "
-           "connection at every byte offset of request and reply, in either direction, in sequences up to length 5; results "
-           "and afterwards-decodability compared with the extracted model.", "7 C13"),
-    note="Fault kinds are the three observable outcomes of a cut connection; RST vs FIN vs short write differ only in which "
-         "of them occurs. Back-off sleeps are real (10-40 ms). Trusted: Coq kernel, extraction, proxy.py, lmclient.c.",
-    technique="Coq proof (invariant over the attempt loop; factorisation of dec_process into a cache-independent part and the "
-              "replay step) + fault-injection correspondence with real libmunge")
+    level=("proof", "Coq theorems over (1) RetryModel (libmunge's retry loop against CredModel.dec_process with per-attempt "
+           "faults: request cut, reply lost after a successful send, reply send failed with roll-back): up to four faulty "
+           "attempts of any kind in any order followed by a clean one return exactly the fault-free result and leave exactly "
+           "one replay record; an unsent reply without retry leaves the cache as before; five faults give a socket error; "
+           "retry counter bounds; encode is retry-independent; (2) RetryReplay (the roll-back on hash.c's chained table with "
+           "replay.c's callbacks, arbitrary slot function): remove-after-insert restores exactly the prior table for EVERY "
+           "prior contents and collision pattern, also with any other work interleaved; a rolled-back retry removes only its "
+           "record; (3) RetryClientModel: m_msg_client_xfer TRANSLATED FROM THE SOURCE TEXT on every run and interpreted over "
+           "an explicit heap (messages, their sockets, open sockets, mreq/mrsp): for every ORDER of per-attempt faults "
+           "(connect refused / broken while writing / broken afterwards) no use-after-free, double free, double close or "
+           "leak; every attempt starts from the state of a first attempt except for the two counters; <=4 faults then "
+           "success with retry = 0..n on n+1 connections and the reply of the last one; 5 faults or a refused connect give a "
+           "socket error. Tied to the code by the real libmunge (ASan, --wrap shims recording allocations, sockets, sends, "
+           "receives, sleeps) through a fault proxy against the real daemon: every order of fault kinds, requests below and "
+           "above the socket send buffer, event traces equal to the extracted model's; /repo's replay.c+hash.c and the live "
+           "daemon with several live records in one bucket chain and the rolled-back one at head / middle / tail.", "7 C13"),
+    note="Fault kinds at the proxy: W k (request cut while the client writes), Q k (request cut on the way), L k (reply cut "
+         "after k bytes although the daemon's send succeeded), S (daemon's send fails, roll-back), C (connect refused). "
+         "Back-off sleeps of the client are virtual (--wrap=nanosleep) and checked to be 10*i ms. Trusted: Coq kernel, "
+         "extraction, tools/facts/retryloop.py (source-text translator), proxy.py, lmclient.c, c13_shims.c.",
+    technique="Coq proof (invariant over the attempt loop; factorisation of dec_process; canonical-form argument for the "
+              "chained table; finite sweep over all fault orders of the translated loop) + source-text translator + "
+              "fault-injection correspondence with real libmunge under ASan, traces compared event by event")
 
 ANY = 0xFFFFFFFF
 E_SOCKET = 6
+WRAPS = ["m_msg_create", "m_msg_destroy", "m_msg_send", "m_msg_recv", "m_msg_bind", "connect", "close", "nanosleep"]
+LARGE = 320000          # payload bytes: request larger than any UNIX-socket send buffer (wmem_default 208 KB + one skb)
+TO_DAEMON = {"W": "Q", "Q": "Q", "L": "L", "S": "S"}      # what the daemon sees
+PHASES_OF = {"W": "sr", "Q": "r", "L": "r", "S": "r", "C": "c"}
+CLAUSE_RETRY = ("If the connection between libmunge and munged breaks at any byte of the request or of the reply, up to four "
+                "times in succession, munge_encode and munge_decode still complete with the correct result by retrying")
+CLAUSE_EXH = "a client that exhausts its retries gets a socket error, never a wrong or partial result"
 
 
+def gen_payload(n):
+    return bytes((i * 131 + 7) & 0xff for i in range(n))
+
+
+class Client:
+    """lmclient (real libmunge, ASan, c13 shims) as a line server; restarted when it dies"""
+
+    def __init__(self, ctx, exe, sock):
+        self.ctx, self.exe, self.sock = ctx, exe, sock
+        self.n = 0
+        self.reports = []
+        self.p = None
+        self.start()
+
+    def start(self):
+        self.n += 1
+        self.errpath = os.path.join(self.ctx.tmp, "lmclient-%d.err" % self.n)
+        self.errf = open(self.errpath, "wb")
+        env = dict(os.environ, ASAN_OPTIONS="detect_leaks=1:abort_on_error=0:exitcode=99:allocator_may_return_null=1")
+        self.p = subprocess.Popen([self.exe, self.sock], stdin=subprocess.PIPE, stdout=subprocess.PIPE, stderr=self.errf,
+                                  text=True, env=env)
+
+    def _line(self):
+        l = self.p.stdout.readline()
+        return l.rstrip("\n") if l else None
+
+    def died(self):
+        """collect what the dead client left on stderr; start a new one"""
+        try:
+            self.p.stdin.close()
+        except OSError:
+            pass
+        try:
+            rc = self.p.wait(20)
+        except subprocess.TimeoutExpired:
+            self.p.kill(); rc = self.p.wait()
+        self.errf.close()
+        txt = open(self.errpath, errors="replace").read()
+        self.start()
+        return rc, txt
+
+    def op(self, hang, line):
+        """-> (fields of the E/D answer, trace tokens) or (None, (rc, stderr)) when the client process died"""
+        try:
+            self.p.stdin.write("P %s\n" % (",".join("h%d" % c for c in hang) or "-"))
+            self.p.stdin.write(line + "\n")
+            self.p.stdin.flush()
+            a = [self._line() for _ in range(3)]
+        except (BrokenPipeError, OSError):
+            a = [None]
+        if any(x is None for x in a) or not a[2].startswith("T "):
+            return None, self.died()
+        return a[1].split(), a[2][2:].split()
+
+    def close(self):
+        try:
+            self.p.stdin.close()
+        except OSError:
+            pass
+        try:
+            rc = self.p.wait(30)
+        except subprocess.TimeoutExpired:
+            self.p.kill(); rc = self.p.wait()
+        self.errf.close()
+        return rc, open(self.errpath, errors="replace").read()
+
+
+# ----------------------------------------------------------------------------- the implementation's trace
+TOK = re.compile(r"^(?:N(\d+)|D(!?)(\d+)|D\?|C(\d+)([+-])|Q(-?\d+)r(\d+)c(\d+)([+-])|B(-?\d+)c(\d+)|R(-?\d+)c(\d+)([+-])|X(!?)(\d+)|S(\d+))$")
+
+
+def observed_phases(trace):
+    """per connection, in order: 'c' connect refused, 's' send failed, 'r' recv failed, None clean"""
+    conns = {}
+    for t in trace:
+        m = TOK.match(t)
+        if not m:
+            continue
+        if m.group(4):
+            c = int(m.group(4))
+            conns.setdefault(c, None)
+            if m.group(5) == "-":
+                conns[c] = "c"
+        elif m.group(6) is not None and m.group(9) == "-":
+            conns[int(m.group(8))] = "s"
+        elif m.group(12) is not None and m.group(14) == "-":
+            conns[int(m.group(13))] = "r"
+    return [conns[c] for c in sorted(conns)]
+
+
+def isolation_holds(trace, consts):
+    """'no state of attempt n is visible in attempt n+1' and memory/descriptor hygiene, evaluated on the events the running
+    library produced (independent of the Coq model).  Returns None or an explanation."""
+    attempts, retry_ms = consts
+    live, dead, opened, closed = set(), set(), set(), set()
+    born = {}               # message id -> attempt in which it was created (0 = by the caller)
+    attempt = 0
+    last_conn = 0
+    sends = []
+    for t in trace:
+        m = TOK.match(t)
+        if not m:
+            return "unknown trace token %r" % t
+        if t.startswith("N"):
+            i = int(m.group(1)); live.add(i); born[i] = attempt
+        elif t == "D?":
+            return "m_msg_destroy was called on a pointer that never was a message (stale or uninitialised pointer)"
+        elif t.startswith("D"):
+            i = int(m.group(3))
+            if m.group(2) or i not in live:
+                return "message #%d (created in attempt %s) is destroyed a second time in attempt %d: the pointer survived " \
+                       "the clean-up of its attempt (double free)" % (i, born.get(i, "?"), attempt)
+            live.discard(i); dead.add(i)
+        elif t.startswith("C"):
+            c = int(m.group(4))
+            if c != last_conn:
+                if c != last_conn + 1:
+                    return "connection numbering jumps at %s" % t
+                # a new attempt begins: nothing of the previous ones may be left
+                if attempt >= 1:
+                    left = sorted(i for i in live if i != 0)
+                    if left:
+                        return "attempt %d starts while message(s) %s of earlier attempts are still allocated" % (attempt + 1, left)
+                    if opened - closed:
+                        return "attempt %d starts while socket(s) %s of earlier attempts are still open" % (attempt + 1, sorted(opened - closed))
+                attempt += 1
+                last_conn = c
+            if m.group(5) == "+":
+                opened.add(c)
+            else:
+                opened.add(c)      # the descriptor exists and must be closed by _m_msg_client_connect
+        elif t.startswith("Q"):
+            i, r, c = int(m.group(6)), int(m.group(7)), int(m.group(8))
+            if i != 0:
+                return "the request sent in attempt %d is not the caller's request message (#%d)" % (attempt, i)
+            if c != last_conn or c in closed:
+                return "attempt %d writes its request to the socket of connection %d (current: %d)" % (attempt, c, last_conn)
+            sends.append(r)
+        elif t.startswith("B") or t.startswith("R"):
+            i = int(m.group(10) if t.startswith("B") else m.group(12))
+            c = int(m.group(11) if t.startswith("B") else m.group(13))
+            if i < 0 or i not in live:
+                return "attempt %d uses message #%d which is not allocated (use after free)" % (attempt, i)
+            if born.get(i) != attempt:
+                return "attempt %d receives into message #%d created in attempt %s" % (attempt, i, born.get(i))
+            if c != last_conn:
+                return "attempt %d reads from the socket of connection %d (current: %d)" % (attempt, c, last_conn)
+        elif t.startswith("X"):
+            c = int(m.group(16))
+            if m.group(15) or c in closed:
+                return "the socket of connection %d is closed a second time (in attempt %d)" % (c, attempt)
+            closed.add(c)
+        elif t.startswith("S"):
+            pass
+    if live:
+        return "message(s) %s still allocated when munge_encode/munge_decode returned (leak)" % sorted(live)
+    if opened - closed:
+        return "socket(s) of connection(s) %s still open when munge_encode/munge_decode returned (descriptor leak)" % sorted(opened - closed)
+    if sends != list(range(len(sends))):
+        return "retry counters on the wire are %s, expected 0,1,2,..." % sends
+    if attempt > attempts:
+        return "%d attempts were made, the bound is %d" % (attempt, attempts)
+    # linear back-off between attempts (sleeps inside a refused connect are 50*i and belong to connect's own retries)
+    xs, inconn = [], False
+    for t in trace:
+        if t[0] == "C":
+            inconn = t.endswith("-")
+        elif t[0] == "S":
+            if not inconn:
+                xs.append(int(t[1:]))
+        else:
+            inconn = False
+    want = [retry_ms * (j + 1) for j in range(len(xs))]
+    if xs != want:
+        return "back-off sleeps between attempts are %s ms, expected %s" % (xs, want)
+    return None
+
+
+def xconsts():
+    t = open(os.path.join(vlib.COQ, "gen", "GenRetryLoop.v")).read()
+    m = re.search(r"src_xconst : xconst := mkC (\d+) (\d+) (\d+) (\d+)", t)
+    return tuple(int(x) for x in m.groups()) if m else (5, 10, 10, 50)
+
+
+# ----------------------------------------------------------------------------- the check
 def _run_own(ctx):
     ctx.level = "proof"
     have = os.path.exists(os.path.join(vlib.COQ, "Properties_C13.v"))
-    proved = vlib.prove(ctx, ["Properties_C13.v"], facts=["cred", "base64"]) if have else False
+    proved = vlib.prove(ctx, ["Properties_C13.v"], facts=["cred", "base64", "replay", "retryloop"]) if have else False
     ctx.log("proofs:", "ok" if proved else "BROKEN/absent: " + getattr(ctx, "broken_obligation", "Properties_C13.v"))
-    ctx.cov["rule"] = ("fault plans = sequences of up to 5 per-attempt faults (Q k: request cut after k bytes; L k: reply cut "
-                       "after k bytes although the daemon's send succeeded; S: daemon-side connection closed before the reply "
-                       "is written) with k over every byte offset of header and body for a small credential (quick: all "
-                       "single-fault offsets + all fault-kind sequences up to length 4 at sampled offsets + exhaustion), run "
-                       "through the real libmunge for munge_decode and munge_encode; result, payload and the replay state "
-                       "afterwards (second decode must say 'replayed'; after an unsent reply without retry the credential must "
-                       "still decode) are compared with the extracted RetryModel. non-trivial = distinct (operation, plan)")
-    try:
-        exe, orc = credcorr.build_all(ctx)
-    except RuntimeError as e:
-        ctx.violation(str(e), {"obligation": "build"}, found_input=False)
-        return
-    lm, err = rig.build_lmclient(ctx)
+    ctx.cov["rule"] = ("fault plans = sequences of up to 5 per-attempt faults at the proxy (W k: request cut after k bytes while the "
+                       "client writes, k=0 with the client held until the peer has hung up; Q k: request cut on the way; L k: reply "
+                       "cut after k bytes although the daemon's send succeeded; S: daemon-side connection closed before the reply is "
+                       "written; C: connect refused) run through the real libmunge (ASan, allocation/socket/send/recv/sleep trace "
+                       "by --wrap shims) for munge_decode and munge_encode with requests of ~100 B and of >300 KB (larger than the "
+                       "socket send buffer): every byte offset for single faults on small requests (thorough; quick: header, "
+                       "boundaries, samples), EVERY ORDER of fault kinds up to length 3 (quick) / 4 (thorough) and sampled longer "
+                       "ones, every adjacent pair of kinds for large requests, exhaustion, refused connects at every position; "
+                       "result, payload, the replay state afterwards, the isolation of attempts evaluated on the trace, and the "
+                       "trace itself against the extracted model of the translated loop.  Roll-back: histories on replay.c+hash.c "
+                       "and in the live daemon with 2-4 live records in one bucket chain, the rolled-back one at head/middle/tail. "
+                       "non-trivial = distinct (operation, size, plan) / distinct history")
+    replay_case = None
+    if getattr(ctx, "replay", None):
+        try:
+            replay_case = json.load(open(ctx.replay))
+        except (OSError, ValueError):
+            replay_case = None
+    only_plan = replay_case if replay_case and "plan" in replay_case and replay_case.get("op") in ("decode", "encode") else None
+
+    # ---- builds: the three C programs in the background, the three extracted oracles (make, under the build lock) here
+    import threading
+    built = {}
+
+    def bg(name, fn):
+        def run():
+            try:
+                built[name] = fn()
+            except Exception as e:       # reported below as a build failure
+                built[name] = (None, repr(e))
+        t = threading.Thread(target=run, daemon=True)
+        t.start()
+        return t
+    threads = [bg("harness", lambda: c13_replay.build_harness(ctx))]
+    if not (replay_case and str(replay_case.get("case_line", "")).startswith("Q ")):
+        threads += [bg("daemon", lambda: rig.build_daemon(ctx)),
+                    bg("lmclient", lambda: rig.build_lmclient(ctx, wraps=WRAPS, extra_src=[os.path.join(vlib.HARNESS, "c13_shims.c")]))]
+    rorc = vlib.build_oracle(ctx, "replay")
+    threads[0].join()
+
+    # ---- roll-back on replay.c + hash.c for every state of a bucket chain
+    if not only_plan:
+        c13_replay.rollback_component(ctx, proved, built=built["harness"], oracle=rorc)
+        if replay_case and str(replay_case.get("case_line", "")).startswith("Q "):
+            return proved
+    orc = vlib.build_oracle(ctx, "cred")
+    xorc = vlib.build_oracle(ctx, "retry")
+    for t in threads:
+        t.join()
+    exe, err = built["daemon"]
+    if exe is None or orc is None:
+        ctx.violation("munged does not build from /repo: " + err[-600:] if exe is None else "cred oracle does not build",
+                      {"obligation": "build"}, found_input=False)
+        return proved
+    ctx.cov["trusted_base"] += ["extract/stubs.c over libgcrypt, zlib, bzlib (independent of munged's OpenSSL)",
+                                "tools/rig.py wire-protocol client, harness/vclock.c (--wrap=time virtual clock)",
+                                "tools/proxy.py (fault proxy), harness/lmclient.c + harness/c13_shims.c (--wrap observation of libmunge)",
+                                "tools/facts/retryloop.py (source-text translator of m_msg_client_xfer)"]
+    lm, err = built["lmclient"]
     if lm is None:
         ctx.violation("libmunge client does not build: " + err[-300:], {"obligation": "build libmunge"}, found_input=False)
-        return
+        return proved
+    os.rename(lm, lm + "-c13")
+    lm += "-c13"
+    xo = None
+    if xorc is None:
+        ctx.violation("retry oracle (extracted RetryClientModel) does not build", {"obligation": "oracle build", "notes": ctx.notes[-1:]},
+                      found_input=False)
+    else:
+        xo = subprocess.Popen([xorc], stdin=subprocess.PIPE, stdout=subprocess.PIPE, text=True)
     cr = credcorr.CredRig(ctx, exe, orc, tag="c13", nthreads=2)
     if not cr.ok:
         ctx.violation("daemon does not start", {"obligation": "start"}, found_input=False)
-        return
+        return proved
     px = FaultProxy(os.path.join(cr.d.dir, "px"), cr.d.sock)
-    p = subprocess.Popen([lm, px.listen_path], stdin=subprocess.PIPE, stdout=subprocess.PIPE, text=True)
-
-    def ask(l):
-        p.stdin.write(l + "\n"); p.stdin.flush()
-        return p.stdout.readline().split()
+    cl = Client(ctx, lm, px.listen_path)
+    ctx.log("daemon, oracles, libmunge client with shims built; daemon and proxy up")
+    consts = xconsts()
+    ATT = consts[0]
 
     rng = ctx.rng
     fails, mism = [], []
     dist = {}
-    payload = b"retry me"
+    PAY = {"small": b"retry me", "large": gen_payload(LARGE)}
+    crashes = [0]
 
-    def fresh_cred():
-        r, _ = rig.encode(cr.d.sock, uid=0, gid=0, data=payload)
+    def fresh_cred(size):
+        r, _ = rig.encode(cr.d.sock, uid=0, gid=0, data=PAY[size])
         return r["data"]
 
-    def model_plan(plan):
-        return ",".join(f[0] for f in plan) or "-"
+    def model_trace(phases):
+        if xo is None:
+            return None
+        xo.stdin.write("X %s\n" % (",".join(phases) or "-")); xo.stdin.flush()
+        return xo.stdout.readline().rstrip("\n")
 
-    def decode_case(kind, plan):
-        cred = fresh_cred()
+    def hang_of(plan):
+        return [j + 1 for j, f in enumerate(plan) if f[0] == "W" and f[1] == 0]
+
+    def plan_str(plan):
+        return ",".join("%s%d" % (f[0], f[1]) if f[0] in "WQL" else f[0] for f in plan) or "-"
+
+    def check_trace(case, plan, trace, err):
+        """direct: isolation of attempts on the implementation's events; correspondence: the events are the model's"""
+        why = isolation_holds(trace, (consts[0], consts[1]))
+        if why:
+            fails.append(dict(case, key="isolation: " + re.sub(r"[0-9]+", "#", why)[:50],
+                              why="%s %s under faults %s: %s" % (case["op"], case["size"], plan_str(plan), why),
+                              clause="no state of attempt n is visible in attempt n+1 / " + CLAUSE_RETRY, trace=" ".join(trace)))
+        wrong = [(n, r) for (n, r) in list(px.wire_retry) if r != n]
+        if wrong and not why:
+            fails.append(dict(case, key="wire-retry", why="%s %s under faults %s: the request of attempt %d arrived with retry=%d in its header "
+                                                          "(attempt i must carry i-1)" % (case["op"], case["size"], plan_str(plan), wrong[0][0] + 1, wrong[0][1]),
+                              clause=CLAUSE_RETRY))
+        ph = observed_phases(trace)
+        faulty = [p for p in ph if p]
+        # was the plan realised?  (each planned fault must show up as a failed attempt of an admissible phase, in order)
+        want = plan[:ATT]
+        if any(f[0] == "C" for f in want):
+            want = want[:[f[0] for f in want].index("C") + 1]
+        ok = len(faulty) == len(want) and all(p in PHASES_OF[f[0]] for p, f in zip(faulty, want)) and \
+            all(p is None for p in ph[len(want):])
+        if not ok and not why:
+            mism.append(dict(case, diff="fault plan %s was realised as client phases %s" % (plan_str(plan), ph), trace=" ".join(trace)))
+            return
+        mt = model_trace(faulty)
+        if mt is not None:
+            head, _, mtrace = mt.partition(" | ")
+            if (head.split()[1] == "socket") != (err == E_SOCKET) and not why:
+                mism.append(dict(case, diff="the model of the translated loop returns '%s' for phases %s, libmunge returned %d"
+                                            % (head.split()[1], ",".join(faulty), err), trace=" ".join(trace), model=mt))
+            if mtrace.split() != trace and not why:
+                mism.append(dict(case, diff="trace of the running library differs from the model of the translated loop for phases %s"
+                                            % ",".join(faulty), trace=" ".join(trace), model=mt))
+
+    def client_died(case, plan, info):
+        rc, txt = info
+        crashes[0] += 1
+        kind = "AddressSanitizer: " + (re.search(r"AddressSanitizer: ([\w-]+)", txt).group(1) if re.search(r"AddressSanitizer: ([\w-]+)", txt) else "abort")
+        fails.append(dict(case, key="client-died", why="%s of a %s payload under connection faults %s: the client process died inside libmunge "
+                                    "(%s, exit %s) instead of completing by retrying" % (case["op"], case["size"], plan_str(plan), kind, rc),
+                          clause=CLAUSE_RETRY if len(plan) < ATT else CLAUSE_EXH, client_stderr=txt[:2500]))
+
+    def decode_case(kind, plan, size="small", model=True):
+        if crashes[0] >= 4:
+            return
+        cred = fresh_cred(size)
+        payload = PAY[size]
         px.set_plan(plan)
-        d = ask("D " + cred.rstrip(b"\0").hex())
-        m = cr.o.ask("DECF %s 0 0 %d - %s" % (cred.hex(), cr.now, model_plan(plan))).split()
-        ctx.count((kind, tuple(plan)))
+        case = {"op": "decode", "size": size, "payload_len": len(payload), "plan": [list(f) for f in plan], "kind": kind}
+        ctx.count(("decode", size, kind, tuple(plan)))
         dist[kind] = dist.get(kind, 0) + 1
+        d, trace = cl.op(hang_of(plan), "D " + cred.rstrip(b"\0").hex())
+        case["proxy_log"] = [list(x) for x in px.log][:8]
+        if d is None:
+            client_died(case, plan, trace)
+            return
         nf = len(plan)
+        refused = any(f[0] == "C" for f in plan[:ATT])
         err = int(d[1])
         got = b"" if d[13] == "-" else bytes.fromhex(d[13])
-        case = {"op": "decode", "plan": [list(f) for f in plan], "libmunge_error": err, "proxy_log": [list(x) for x in px.log][:8]}
-        # model vs implementation
-        if m[1] == "SOCKERR":
-            if err != E_SOCKET:
-                mism.append(dict(case, diff="model: socket error, libmunge: %d" % err))
-        else:
-            if err != int(m[1]) or (err == 0 and got.hex() != (m[18] if m[18] != "-" else "")):
-                mism.append(dict(case, diff="model: error %s, libmunge: %d" % (m[1], err)))
+        case["libmunge_error"] = err
+        errstr = bytes.fromhex(d[14]).decode(errors="replace") if d[14] != "-" else ""
         # the property, directly
-        if nf <= 4:
+        if nf < ATT and not refused:
             if err != 0 or got != payload:
-                fails.append(dict(case, why="munge_decode under %d connection fault(s) %s returned error %d (%s) instead of the payload"
-                                           % (nf, model_plan(plan), err, bytes.fromhex(d[14]).decode(errors="replace") if d[14] != "-" else "")))
+                fails.append(dict(case, key="decode-wrong", why="munge_decode (%s credential) under %d connection fault(s) %s returned error %d (%s) instead of the payload"
+                                            % (size, nf, plan_str(plan), err, errstr), clause=CLAUSE_RETRY))
         else:
-            if err not in (E_SOCKET,) and not (err == 0 and got == payload):
-                fails.append(dict(case, why="after %d faults munge_decode returned error %d: neither a socket error nor the correct result" % (nf, err)))
-            if err == 0 and got != payload:
-                fails.append(dict(case, why="partial/wrong payload after exhausted retries"))
-        # afterwards: exactly one record -> a new first-attempt decode says replayed (if the decode succeeded)
-        d2, m2, diff = cr.decode_both(cred)
-        if diff:
-            mism.append(dict(case, diff="afterwards: " + diff))
-        if err == 0 and (d2 is None or d2["error_num"] != 17):
-            fails.append(dict(case, why="after a successful (retried) decode a second decode gives %s, expected 'replayed'" % (d2 and d2["error_num"])))
+            if err != E_SOCKET and not (err == 0 and got == payload):
+                fails.append(dict(case, key="decode-exhausted", why="after faults %s munge_decode returned error %d (%s): neither a socket error nor the correct result"
+                                            % (plan_str(plan), err, errstr), clause=CLAUSE_EXH))
+        if err == E_SOCKET and got:
+            fails.append(dict(case, key="partial", why="munge_decode returned a socket error AND %d payload bytes (partial result) under faults %s"
+                                                       % (len(got), plan_str(plan)), clause=CLAUSE_EXH))
+        check_trace(case, plan, trace, err)
+        # model vs implementation (daemon side + result), then the state afterwards
+        if model:
+            seen = []
+            for f in plan[:ATT]:
+                if f[0] == "C":
+                    seen += ["Q"] * (ATT - len(seen))
+                    break
+                seen.append(TO_DAEMON[f[0]])
+            m = cr.o.ask("DECF %s 0 0 %d - %s" % (cred.hex(), cr.now, ",".join(seen) or "-")).split()
+            if m[1] == "SOCKERR":
+                if err != E_SOCKET:
+                    mism.append(dict(case, diff="model: socket error, libmunge: %d" % err))
+            elif err != int(m[1]) or (err == 0 and got.hex() != (m[18] if m[18] != "-" else "")):
+                mism.append(dict(case, diff="model: error %s, libmunge: %d" % (m[1], err)))
+            d2, m2, diff = cr.decode_both(cred)
+            if diff:
+                mism.append(dict(case, diff="afterwards: " + diff))
+            d2e = None if d2 is None else d2["error_num"]
+        else:
+            r2, _ = rig.decode(cr.d.sock, cred)
+            d2e = None if r2 is None else r2["error_num"]
+        if err == 0 and d2e != 17:
+            fails.append(dict(case, key="second-decode", why="after a successful (retried) decode under faults %s a second decode gives %s, expected 'replayed'"
+                                        % (plan_str(plan), d2e), clause=CLAUSE_RETRY))
         if len(ctx.cov["samples"]) < 10 and nf:
-            ctx.sample(case)
+            ctx.sample({k: case[k] for k in ("op", "size", "plan", "libmunge_error")})
 
-    def encode_case(kind, plan):
+    def encode_case(kind, plan, size="small"):
+        if crashes[0] >= 4:
+            return
+        payload = PAY[size]
         px.set_plan(plan)
-        e = ask("E %s 1 1 1 0 %d %d" % (payload.hex(), ANY, ANY))
-        ctx.count((kind, tuple(plan)))
+        case = {"op": "encode", "size": size, "payload_len": len(payload), "plan": [list(f) for f in plan], "kind": kind}
+        ctx.count(("encode", size, kind, tuple(plan)))
         dist[kind] = dist.get(kind, 0) + 1
+        arg = payload.hex() if size == "small" else "@%d" % len(payload)
+        e, trace = cl.op(hang_of(plan), "E %s 1 1 1 0 %d %d" % (arg, ANY, ANY))
+        case["proxy_log"] = [list(x) for x in px.log][:8]
+        if e is None:
+            client_died(case, plan, trace)
+            return
         err = int(e[1])
-        case = {"op": "encode", "plan": [list(f) for f in plan], "libmunge_error": err}
-        if len(plan) <= 4:
+        case["libmunge_error"] = err
+        refused = any(f[0] == "C" for f in plan[:ATT])
+        if len(plan) < ATT and not refused:
             if err != 0:
-                fails.append(dict(case, why="munge_encode under %d connection fault(s) returned error %d" % (len(plan), err)))
-                return
-            d, m, diff = cr.decode_both(bytes.fromhex(e[2]) + b"\0")
-            if d is None or d["error_num"] != 0 or d["data"] != payload:
-                fails.append(dict(case, why="credential returned by a retried munge_encode does not decode: %s" % (d and d["error_num"])))
+                fails.append(dict(case, key="encode-wrong", why="munge_encode (%s payload) under %d connection fault(s) %s returned error %d"
+                                            % (size, len(plan), plan_str(plan), err), clause=CLAUSE_RETRY))
+            else:
+                cred = bytes.fromhex(e[2]) + b"\0"
+                if size == "small":
+                    d, m, diff = cr.decode_both(cred)
+                else:
+                    d, _ = rig.decode(cr.d.sock, cred)
+                if d is None or d["error_num"] != 0 or d["data"] != payload:
+                    fails.append(dict(case, key="encode-cred", why="credential returned by a retried munge_encode (faults %s) does not decode to the payload: %s"
+                                                % (plan_str(plan), d and d["error_num"]), clause=CLAUSE_RETRY))
         elif err not in (0, E_SOCKET):
-            fails.append(dict(case, why="after %d faults munge_encode returned %d (neither socket error nor success)" % (len(plan), err)))
+            fails.append(dict(case, key="encode-exhausted", why="after faults %s munge_encode returned %d (neither socket error nor success)"
+                                        % (plan_str(plan), err), clause=CLAUSE_EXH))
+        if err != 0 and e[2] != "-":
+            fails.append(dict(case, key="partial", why="munge_encode returned error %d AND a credential" % err, clause=CLAUSE_EXH))
+        check_trace(case, plan, trace, err)
 
-    cred0 = fresh_cred()
-    reqlen = 11 + 4 + len(cred0.rstrip(b"\0")) + 1
+    # ------------------------------------------------------------------ plans
+    cred0 = fresh_cred("small")
+    reqlen = {("decode", "small"): 11 + 4 + len(cred0.rstrip(b"\0")) + 1, ("encode", "small"): 11 + 20 + len(PAY["small"]),
+              ("decode", "large"): 11 + 4 + (LARGE * 4) // 3, ("encode", "large"): 11 + 20 + LARGE}
     rsplen = 11 + 60
-    # single fault at every byte offset of request and reply
-    offs_q = range(0, reqlen) if ctx.thorough else sorted(set(list(range(0, 16)) + [reqlen // 2, reqlen - 2, reqlen - 1]))
-    offs_l = range(0, rsplen) if ctx.thorough else sorted(set(list(range(0, 14)) + [20, 40, rsplen - 1, 200]))
-    for k in offs_q:
-        decode_case("single-Q", [("Q", k)])
-    for k in offs_l:
-        decode_case("single-L", [("L", k)])
-    decode_case("single-S", [("S", 0)])
-    decode_case("clean", [])
-    # all fault-kind sequences up to length 4 (then clean), at sampled offsets
-    kinds = ["Q", "L", "S"]
-    for n in (2, 3, 4):
-        seqs = list(itertools.product(kinds, repeat=n))
-        if not ctx.thorough:
-            seqs = rng.sample(seqs, min(len(seqs), 10 if n < 4 else 14))
-        for s in seqs:
-            plan = [(x, rng.choice([0, 5, 11, 12, 30]) if x != "S" else 0) for x in s]
-            decode_case("seq%d" % n, plan)
-    # exhaustion: five faults
-    for s in ([("Q",) * 5, ("L",) * 5, ("S",) * 5, ("L", "S", "Q", "L", "S")] + ([tuple(rng.choice(kinds) for _ in range(5)) for _ in range(6)] if ctx.thorough else [])):
-        decode_case("exhausted", [(x, 7 if x != "S" else 0) for x in s])
-    # encode under faults
-    for plan in ([("Q", 3)], [("L", 5)], [("S", 0)], [("L", 0), ("Q", 11), ("S", 0), ("L", 12)], [("S", 0)] * 4, [("Q", 0)] * 5, [("L", 1)] * 5):
-        encode_case("encode", plan)
-    # replies to a SUCCESSFUL decode that cannot be delivered, after which the client never reaches munged again
-    # (raw clients through the proxy, so that the sequence stops where we want): the credential must remain decodable.
-    #   [S]      first attempt processed, send fails
-    #   [Q, S]   first attempt never arrives; the retry (retry=1) is processed, its send fails
-    #   [L, S]   first attempt processed and answered (reply lost on the way); the retry is accepted as a retry,
-    #            its send fails -> munged gives the record back
-    for seq in ([["S"], ["Q", "S"], ["L", "S"]] * (2 if ctx.thorough else 1)):
-        cred = fresh_cred()
-        px.set_plan([(x, 0 if x == "S" else 9) for x in seq])
-        for i, x in enumerate(seq):
-            rig.decode(px.listen_path, cred, retry=i)        # the client gets nothing usable
-        cr.o.ask("DECF %s 0 0 %d - %s" % (cred.hex(), cr.now, ",".join(seq + ["S"] * (5 - len(seq)))))
-        time.sleep(0.05)
-        d, m, diff = cr.decode_both(cred)
-        ctx.count(("unsent", tuple(seq)))
-        dist["unsent-no-retry"] = dist.get("unsent-no-retry", 0) + 1
-        if diff:
-            mism.append({"op": "unsent", "diff": diff})
-        if d is None or d["error_num"] != 0:
-            fails.append({"why": "attempts %s: the reply to a successful decode could not be delivered and the client never came back, yet "
-                                 "the credential is now reported as %s" % (seq, d and (d["error_num"], d["error_str"]),), "op": "unsent", "seq": seq})
-    p.stdin.close()
-    p.wait()
+
+    def inst(kinds, op, size):
+        """a plan for a sequence of kinds: offsets drawn so that each kind is what its name says for this request size.
+        w = W 0 (the client is held until the peer has hung up: its first write fails); W = W k with k >= 1"""
+        n = reqlen[(op, size)]
+        plan = []
+        for x in kinds:
+            if x == "w":
+                plan.append(("W", 0))
+            elif x == "W":
+                if size == "large":
+                    k = rng.choice([1, 11, 12, 4096, 16384])           # well below n - (send buffer): the write cannot have finished
+                else:
+                    k = rng.choice([1, 5, 11, 12, min(30, n - 2), n - 2])
+                plan.append(("W", k))
+            elif x == "Q":
+                plan.append(("Q", rng.choice([0, 5, 11, 12, 30, n // 2, n - 1])))
+            elif x == "L":
+                plan.append(("L", rng.choice([0, 5, 10, 11, 12, 30, 60])))
+            else:
+                plan.append((x, 0))
+        return plan
+
+    def model_guided():
+        """ask the model of the loop AS TRANSLATED FROM THIS SOURCE for fault orders under which it predicts undefined
+        behaviour, a leak, or a wrong result, and try those first on the running library"""
+        if xo is None:
+            return []
+        out = []
+        for ln in range(0, ATT + 1):
+            for ph in itertools.product("csr", repeat=ln):
+                mt = model_trace(ph)
+                f = mt.split(" | ")[0].split()
+                refused = "c" in ph
+                want = "ok" if (ln < ATT and not refused) else "socket"
+                if f[3] != "-" or f[1] != want or not f[5].endswith("-/-"):
+                    out.append((ph, f[3]))
+            if len(out) >= 6:
+                break
+        return out[:6]
+
+    if only_plan:
+        plan = [tuple(f) for f in only_plan["plan"]]
+        (decode_case if only_plan["op"] == "decode" else encode_case)("replayed-case", plan, only_plan.get("size", "small"))
+    else:
+        # single fault at every byte offset of request and reply (small request)
+        n = reqlen[("decode", "small")]
+        offs_q = range(0, n) if ctx.thorough else sorted(set(list(range(0, 16)) + [n // 2, n - 2, n - 1]))
+        offs_l = range(0, rsplen) if ctx.thorough else sorted(set(list(range(0, 14)) + [20, 40, rsplen - 1, 200]))
+        offs_w = range(0, n - 1) if ctx.thorough else sorted(set([0, 1, 2, 10, 11, 12, 15, n // 2, n - 2]))
+        for k in offs_q:
+            decode_case("single-Q", [("Q", k)])
+        for k in offs_l:
+            decode_case("single-L", [("L", k)])
+        for k in offs_w:
+            decode_case("single-W", [("W", k)])
+        decode_case("single-S", [("S", 0)])
+        decode_case("single-C", [("C", 0)])
+        decode_case("clean", [])
+        # EVERY ORDER of fault kinds over the attempts
+        kinds = ["w", "W", "Q", "L", "S"]
+        for ph, what in model_guided():
+            plan = inst([{"c": "C", "s": "w", "r": "L"}[x] for x in ph], "decode", "small")
+            ctx.notes.append("model of the translated loop predicts %s for client phases %s" % (what or "a wrong result", ",".join(ph)))
+            decode_case("model-guided", plan)
+        full = ATT if ctx.thorough else 3
+        for ln in range(2, ATT + 1):
+            seqs = list(itertools.product(kinds, repeat=ln))
+            if ln > full:
+                seqs = rng.sample(seqs, min(len(seqs), (60 if ctx.thorough else 12) if ln < ATT else (40 if ctx.thorough else 8)))
+            for s in seqs:
+                decode_case("order%d" % ln if ln < ATT else "exhausted", inst(s, "decode", "small"))
+        for s in (("Q",) * ATT, ("L",) * ATT, ("S",) * ATT, ("W",) * ATT, ("w",) * ATT):
+            decode_case("exhausted", inst(s, "decode", "small"))
+        # a refused connect after each kind and at each position
+        for pos in range(1, ATT):
+            for x in (kinds if pos == 1 or ctx.thorough else [rng.choice(kinds)]):
+                pre = [rng.choice(kinds) for _ in range(pos - 1)] + [x]
+                decode_case("refused", inst(pre, "decode", "small") + [("C", 0)])
+        ctx.log("decode, small requests: %d plans" % ctx.cov["evaluations"])
+        # encode: every adjacent pair, and longer orders sampled
+        for s in [(a,) for a in kinds] + list(itertools.product(kinds, repeat=2)):
+            encode_case("encode-order", inst(s, "encode", "small"))
+        for s in rng.sample(list(itertools.product(kinds, repeat=3)), 64 if ctx.thorough else 8) + \
+                rng.sample(list(itertools.product(kinds, repeat=4)), 64 if ctx.thorough else 6):
+            encode_case("encode-order", inst(s, "encode", "small"))
+        for s in (("w",) * ATT, ("L", "w", "S", "Q", "L"), ("Q",) * ATT):
+            encode_case("encode-exhausted", inst(s, "encode", "small"))
+        encode_case("encode-refused", inst(("L",), "encode", "small") + [("C", 0)])
+        encode_case("encode-refused", [("C", 0)])
+        ctx.log("encode, small requests done")
+        # requests larger than the socket send buffer: the request-phase cut is seen by the WRITER
+        pairs = list(itertools.product(kinds, repeat=2))
+        for j, s in enumerate([(a,) for a in kinds] + pairs):
+            both = ctx.thorough or len(s) == 1
+            if both or (j + ctx.seed) % 2 == 0:
+                decode_case("large-order", inst(s, "decode", "large"), "large", model=(len(s) == 1 and (ctx.thorough or s == ("W",))))
+            if both or (j + ctx.seed) % 2 == 1:
+                encode_case("large-order", inst(s, "encode", "large"), "large")
+        longer = [("L", "W", "Q", "w"), ("W", "L", "W", "S"), ("S", "w", "W", "L")] + \
+                 (list(itertools.product(kinds, repeat=3)) if ctx.thorough else [])
+        for j, s in enumerate(longer):
+            if j < 3 or j % 2 == 0:
+                decode_case("large-order", inst(s, "decode", "large"), "large", model=False)
+            if j < 3 or j % 2 == 1:
+                encode_case("large-order", inst(s, "encode", "large"), "large")
+        for s in [("L", "W", "L", "w", "W"), ("W",) * ATT]:
+            decode_case("large-exhausted", inst(s, "decode", "large"), "large", model=False)
+            encode_case("large-exhausted", inst(s, "encode", "large"), "large")
+        decode_case("large-refused", inst(("L", "W"), "decode", "large") + [("C", 0)], "large", model=False)
+        encode_case("large-refused", inst(("W", "L"), "encode", "large") + [("C", 0)], "large")
+
+        ctx.log("requests of %d payload bytes done" % LARGE)
+        # replies to a SUCCESSFUL decode that cannot be delivered, after which the client never reaches munged again
+        # (raw clients through the proxy, so that the sequence stops where we want): the credential must remain decodable.
+        #   [S]      first attempt processed, send fails
+        #   [Q, S]   first attempt never arrives; the retry (retry=1) is processed, its send fails
+        #   [L, S]   first attempt processed and answered (reply lost on the way); the retry is accepted as a retry,
+        #            its send fails -> munged gives the record back
+        px.set_plan([])
+        for seq in ([["S"], ["Q", "S"], ["L", "S"], ["W", "S"]] * (2 if ctx.thorough else 1)):
+            cred = fresh_cred("small")
+            px.set_plan([(x, 0 if x == "S" else 9) for x in seq])
+            for i, x in enumerate(seq):
+                rig.decode(px.listen_path, cred, retry=i)        # the client gets nothing usable
+            cr.o.ask("DECF %s 0 0 %d - %s" % (cred.hex(), cr.now, ",".join([TO_DAEMON[x] for x in seq] + ["S"] * (5 - len(seq)))))
+            time.sleep(0.05)
+            d, m, diff = cr.decode_both(cred)
+            ctx.count(("unsent", tuple(seq)))
+            dist["unsent-no-retry"] = dist.get("unsent-no-retry", 0) + 1
+            if diff:
+                mism.append({"op": "unsent", "diff": diff})
+            if d is None or d["error_num"] != 0:
+                fails.append({"why": "attempts %s: the reply to a successful decode could not be delivered and the client never came back, yet "
+                                     "the credential is now reported as %s" % (seq, d and (d["error_num"], d["error_str"]),), "op": "unsent", "seq": seq})
+        # the same with other live credentials in the SAME bucket chain of the replay table (head / middle / tail)
+        c13_replay.rollback_live(ctx, cr, fails, mism, dist)
+
+    rc_cl, cl_err = cl.close()
+    if xo is not None:
+        xo.stdin.close(); xo.wait()
     px.close()
     rc, rep = cr.stop()
     if rep.strip():
         ctx.violation("sanitizer report from the daemon during C13 cases", {"report": rep[:3000]}, found_input=False)
-    ctx.cov["input_distribution"] = dist
+    if (rc_cl != 0 or "Sanitizer" in cl_err) and not fails:
+        ctx.violation("the libmunge client left a sanitizer report at exit (leak or memory error) after the C13 fault plans: "
+                      + (re.search(r"(ERROR: \w+Sanitizer:[^\n]*)", cl_err).group(1) if re.search(r"(ERROR: \w+Sanitizer:[^\n]*)", cl_err) else "exit %s" % rc_cl),
+                      {"client_stderr": cl_err[:3000], "rc": rc_cl, "obligation": "no message or descriptor of any attempt is left behind"},
+                      found_input=False)
+    ctx.cov.setdefault("input_distribution", {}).update(dist)
     ctx.cov["traces_validated_against_impl"] = ctx.cov["evaluations"]
-    seen = set()
+    seen = {}
+    fails.sort(key=lambda f: len(f.get("plan", [])))       # shortest fault plan first
     for f in fails:
-        k = f["why"][:50]
-        if k in seen:
+        k = f.get("key") or re.sub(r"faults? [-\w,]+|\((small|large) \w+\)", "", re.sub(r"[0-9]+", "#", f["why"]))[:70]
+        seen[k] = seen.get(k, 0) + 1
+        if seen[k] > (2 if f.get("key") else 1):
             continue
-        seen.add(k)
         ctx.violation(f["why"], f, found_input=True)
     if not fails and mism:
         ctx.violation("model and implementation disagree on %d cases (first: %s)" % (len(mism), mism[0]["diff"]),
-                      {"obligation": "correspondence RetryModel ~ libmunge+munged", "first": mism[0]}, found_input=False)
-    if not fails and not mism and not proved:
-        ctx.violation("proof obligation no longer checks: %s" % getattr(ctx, "broken_obligation", "Properties_C13.v missing"),
-                      {"obligation": getattr(ctx, "broken_obligation", "?"), "log": ctx.proof_log[-3000:]}, found_input=False)
+                      {"obligation": "correspondence RetryModel / RetryClientModel ~ libmunge+munged", "first": mism[0]}, found_input=False)
+    return proved
 
 
 def run(ctx):
     """the property's own check, then the component check of the socket I/O loops (fd.c) that every request and reply of
     this property goes through: Properties_FD.v + correspondence FdModel ~ /repo's fd.c (tools/props/fd_common.py)"""
-    _run_own(ctx)
+    proved = _run_own(ctx)
+    if not ctx.violations and not proved:
+        ctx.violation("proof obligation no longer checks: %s" % getattr(ctx, "broken_obligation", "Properties_C13.v missing"),
+                      {"obligation": getattr(ctx, "broken_obligation", "?"), "log": ctx.proof_log[-3000:]}, found_input=False)
+    if getattr(ctx, "replay", None):
+        return
     from props import fd_common
     fd_common.fd_phase(ctx)
